@@ -92,6 +92,16 @@ func (x g) n(lo, hi int) int {
 func (x g) chance(pct int) bool       { return x.n(0, 99) < pct }
 func (x g) pick(list []string) string { return list[x.n(0, len(list)-1)] }
 
+// arith: integer (or float) arithmetic over 2-4 numbers at the ends of the range and factors of 2^64 (sums and
+// products wrap around, also to 0).
+func (x g) arith() string {
+	f := x.pick([]string{"fn:div", "fn:div", "fn:mult", "fn:plus", "fn:minus", "fn:mod", "fn:float:div"})
+	n := x.n(2, 4)
+	return f + "(" + x.list(0, n, n, func(int) string {
+		return x.pick([]string{"1", "2", "-1", "0", "4294967296", "-4294967296", "4611686018427387904", "-9223372036854775808", "9223372036854775807", "65536", "3"})
+	}) + ")"
+}
+
 // ---------------------------------------------------------------------------------------------
 // Grammar pieces.
 
@@ -413,7 +423,7 @@ func (x g) scFile() string {
 		for j := 0; j < p.arity; j++ {
 			for i := 0; i < p.count; i++ {
 				var cell string
-				switch k := x.n(0, 19); {
+				switch k := x.n(0, 20); {
 				case k <= 13:
 					cell = x.constant(2)
 				case k == 14:
@@ -422,6 +432,8 @@ func (x g) scFile() string {
 					cell = x.fnApp(2, func(d int) string { return x.constant(d) })
 				case k == 16:
 					cell = x.pick([]string{"X", "_", "p(1)", "fn:foo(1)", "fn:list:get([], 5)", "fn:div(1, 0)", "fn:time:now()", "fn:collect(1)", "fn:group_by()"})
+				case k == 19:
+					cell = x.arith()
 				case k == 18:
 					// a function applied to no argument (or one, or two) whatever its arity is
 					f := builtinFuns[x.n(0, len(builtinFuns)-1)]
